@@ -29,14 +29,14 @@ func init() {
 		Replay: replay,
 		Rule: "every space is enumerated completely in index order, cut into batches that 16 worker processes pull from one queue. " +
 			"(a) corpus G: KNXnet/IP frames built octet by octet from the layouts of DESIGN Appendix C (all 15 service identifiers + an unknown one; the 7 cEMI codes + an unsupported one inside TUNNELLING_REQUEST and ROUTING_INDICATION; L_Data with control unit / data units of 1, 2, 15, 16 octets x additional info of 0, 1, 3 octets; description and search responses over DIB sequences incl. zero-length DIBs) plus every sub-structure cut from them for the exported sub-decoders (HostInfo, DeviceInformationBlock, SupportedServicesDIB, DescriptionBlock, cemi.Info, cemi.LData, util.UnpackString, cemi.Unpack). " +
-			"(b) for every element of G: all truncations, all single-octet substitutions (every position x 0..255), all ordered double substitutions on structure octets (header length, version, total length, HPAI/CRI/CRD/DIB length and type, additional-info length, TPDU length, TPCI) with 0..255 x a 16-value alphabet, all extensions by 1..3 octets of a 6-value alphabet. " +
+			"(b) for every element of G: all truncations, all single-octet substitutions (every position x 0..255), all ordered double substitutions on structure octets (header length, version, total length, HPAI/CRI/CRD/DIB length and type, additional-info length, TPDU length, TPCI) with 0..255 x a 16-value alphabet, all extensions by 1..3 octets of a 6-value alphabet; the seeds that are malformed on purpose (a zero-length DIB) are truncated in both tiers but substituted and extended in the thorough tier only. " +
 			"(c) all octet strings of length <= 2 (quick) / <= 3 (thorough) after each of 16 valid headers (total length truthful) and after each of 8 cEMI message codes. " +
 			"Every case is decoded four times: from a region with cap == len and as the prefix of a 2 KiB buffer filled with 0xA5, with 0x00, and holding the octets of a longer valid datagram of the same kind followed by 0xFF. " +
 			"Oracle: no panic; termination; on success n <= len(input); (err == nil, n, deep value) identical across the four backings. " +
 			"distinct_nontrivial = cases on which the decoder returned success (err == nil, decoding from the cap == len backing), not counting mutations that reproduce their seed (those are counted once, in a:corpus).",
 		Assume: []string{
 			"the frames of corpus G (enum/decode/corpus.go) follow DESIGN Appendix C; they are built without calling the library",
-			"termination oracle: a case is reported as a hang only after it ran for 5 s without returning in two separate single-case processes; in the bulk workers a case that burns more than C01_TRIP_US (default 400) microseconds of thread CPU time has the access to its input revoked (mprotect) and is skipped as a hang candidate of the confirmed stack signature; a worker silent for 20 s is killed and the case it was on is confirmed the same way",
+			"termination oracle: a hang class is reported only after its example case ran for 5 s without returning in two separate single-case processes, and it is named after the innermost library function common to all stack samples taken there. The other members of the class are counted by the bulk workers: a decoder call that burns more than C01_TRIP_US (default 200) microseconds of thread CPU time has the access to its input revoked (mprotect; the next read faults and the fault is recovered as a panic); the case counts as a hang (and is skipped) if that happens again on an immediate second run with a function already confirmed to loop on the stack, or on a second run with 25 times the allowance when no such function is on the stack (the parent then confirms that case in single-case processes before anything is counted). A worker silent for 20 s is killed, the case it was on (read from its progress file) is confirmed the same way and skipped",
 			"part (d) of the design (histories through the live socket receivers) is checked by the model-checking engine, not here",
 			"the decoders do not retain references to their input across calls (each case overwrites the shared input arena)",
 		},
@@ -256,8 +256,8 @@ func (p *parent) reportHang(looper string, count int64, sp int, idx int64, res s
 		p.publishLoopers()
 	}
 	p.confirmMu.Unlock()
-	msg := fmt.Sprintf("%s(%s) (%d octets) does not return: it ran for %d ms without returning in two separate processes; the goroutine loops in %s (innermost library function common to %d stack samples; last sample, outermost first: %s)",
-		in.Entry, in.Hex, in.Len, singleLimit, looper, res.Samples, strings.Join(res.Frames, " > "))
+	msg := fmt.Sprintf("%s(%s) (%d octets) does not return; the goroutine loops in %s (stack, outermost first: %s)",
+		in.Entry, in.Hex, in.Len, looper, strings.Join(res.Frames, " > "))
 	p.addViolation(class, count, sp, idx, msg, goTestHang(ac.kind, ac.x))
 	return class
 }
@@ -292,7 +292,7 @@ func (p *parent) resolveTrip(key string, sp int, idx int64) string {
 	p.loopers[looper] = cl
 	p.frameClass[key] = cl
 	p.publishLoopers()
-	debugf("hang confirmed: %s loops in %s", in.Hex, looper)
+	debugf("hang confirmed: %s loops in %s (stack signature %s)", in.Hex, looper, key)
 	return cl
 }
 
@@ -563,9 +563,6 @@ func run(r *enumlib.Run) {
 		p.stats["worker_starts"] = 0
 	}
 	r.Extra("process_statistics", p.stats)
-	for i, s := range p.infra {
-		r.Violation(fmt.Sprintf("INFRA:c01-worker-%d", i), s, nil)
-	}
 
 	// samples: the middle case of some spaces, judged on its own
 	for i, sp := range p.sps {
@@ -587,6 +584,27 @@ func run(r *enumlib.Run) {
 		classes = append(classes, cl)
 	}
 	sort.Strings(classes)
+	// the reported example of a hang class is itself confirmed: twice, in processes of its own
+	var wg sync.WaitGroup
+	for _, cl := range classes {
+		if v := p.viol[cl]; strings.HasPrefix(cl, "C01:hang:") {
+			wg.Add(1)
+			go func(cl string, v *pviol) {
+				defer wg.Done()
+				kind, _, res := p.confirm(v.sp, v.idx)
+				if kind != "hang" {
+					p.infraErr(fmt.Sprintf("the example of %s (%s case %d, %s) returned when run on its own: %v", cl, p.sps[v.sp].name, v.idx, v.input.Hex, res.Results))
+					return
+				}
+				v.msg = fmt.Sprintf("%s(%s) (%d octets) does not return: it ran for %d ms without returning in two separate processes; the goroutine loops in %s (innermost library function common to %d stack samples; last sample, outermost first: %s)",
+					v.input.Entry, v.input.Hex, v.input.Len, singleLimit, res.Looper, res.Samples, strings.Join(res.Frames, " > "))
+			}(cl, v)
+		}
+	}
+	wg.Wait()
+	for i, s := range p.infra {
+		r.Violation(fmt.Sprintf("INFRA:c01-worker-%d", i), s, nil)
+	}
 	for _, cl := range classes {
 		v := p.viol[cl]
 		r.ViolationWithTest(cl, v.msg, v.input, v.goTest)
